@@ -134,7 +134,9 @@ KnownNt(c) == IsIupacNt(c) \/ Up(c) \in {GAP, STAR, chX, POINT}
 NtBits(c) == IF IsIupacNt(c) THEN IupacSet(Up(c)) ELSE {}
 \* identical codes or compatible (sharing a base)
 NtCompat(a, b) == NtBits(a) = NtBits(b) \/ (NtBits(a) \cap NtBits(b)) # {}
-SameOrCompat(al, a, b) == IF al = NUCLEOTIDS THEN NtCompat(a, b) ELSE a = b
+\* (a = residue of the sequence, b = residue of the reference; "N/X never count as substitutions": the wildcard of the
+\* alphabet in the reference is compatible with everything, as N is among nucleotides)
+SameOrCompat(al, a, b) == IF al = NUCLEOTIDS THEN NtCompat(a, b) ELSE (a = b \/ (al = AMINOACIDS /\ b = chX))
 AnyOf(al) == IF al = NUCLEOTIDS THEN chN ELSE chX
 NumMutErr(al, s, ref) == Len(s) # Len(ref) \/ (al = NUCLEOTIDS /\ \E i \in 1..Len(s) : ~KnownNt(s[i]) \/ ~KnownNt(ref[i]))
 NumMut(al, s, ref) ==
